@@ -72,7 +72,18 @@ def run_control(c):
                             "--no-evidence", "--tier", "quick"], cwd=VERIF, env=env,
                            capture_output=True, text=True)
         out = r.stdout + r.stderr
-        if "does not build" in out:
+        if c.get("silent"):
+            # behaviour-preserving edit: the check must stay silent
+            if "does not build" in out:
+                res["status"] = "nobuild"
+                res["detail"] = out[-400:]
+            elif r.returncode == 0 and "VIOLATION" not in out:
+                res["status"] = "silent"
+                res["detail"] = ""
+            else:
+                res["status"] = "falsealarm"
+                res["detail"] = out[-600:]
+        elif "does not build" in out:
             res["status"] = "nobuild"
             res["detail"] = out[-400:]
         elif r.returncode == 1 and "VIOLATION" in out and (not c.get("expect") or c["expect"] in out):
@@ -117,8 +128,8 @@ def main():
     bad = 0
     for r in rs:
         print("%-8s %-4s %-50s %5.1fs %s" % (r["status"], r["property"], r["name"], r["seconds"],
-                                             r["detail"][:160].replace("\n", " ") if r["status"] != "fired" else ""))
-        if r["status"] in ("missed", "nobuild"):
+                                             r["detail"][:160].replace("\n", " ") if r["status"] not in ("fired", "silent") else ""))
+        if r["status"] in ("missed", "nobuild", "falsealarm"):
             bad += 1
     return 1 if bad else 0
 
